@@ -1,4 +1,10 @@
 """C17 - samples and end of run occur at nominal times on a fully time-sliced state (history monitor)."""
+import math
+from fractions import Fraction
+
+from hypothesis import strategies as st
+
+from .. import gen
 from ..configs import config_case
 from ..runner import Check
 from ._history import run_history
@@ -11,7 +17,11 @@ RULE = ("Generator of C07 with a drawn sampling interval (fixed values 0.3/0.1/0
         "t_k exactly; the run ends with the end-of-run event at Time.from_float(end) as last commit; the number of "
         "samples is the number of nominal times before the end (a nominal time equal to the end may go either way). "
         "Non-trivial: a run that reached its end with >=3 samples and >=1 interaction event; distinct by (config, "
-        "edits, seed, budget).")
+        "edits, seed, budget). One history in six draws an interval in [0.0015, 0.004] (500-8000 samples per run). "
+        "Sub-check periodic_handlers: the sampling and dumping handlers alone are asked for 3-300 or 1000-4000 "
+        "consecutive candidate times (interval from fixed values and log-uniform [1e-4,1e3], first sample at zero or "
+        "not); oracle k*interval in Fractions with (k+1) roundings of size ulp(1+interval) allowed, strictly "
+        "increasing, normalised; non-trivial: >=1000 steps.")
 ASSUMPTIONS = ["same instrumentation as C07; sampling parameters are read from the configuration text, not from the "
                "handler"]
 
@@ -21,6 +31,56 @@ def body(rec, c):
                 and m.stats["interaction_commits"] >= 1)
 
 
-CHECKS = [Check("history", body, lambda: {"c": config_case(sampling_focus=True, min_end=(2.0, 12.0),
+@st.composite
+def periodic_case(draw):
+    interval = draw(st.one_of(st.sampled_from([0.3, 0.1, 0.25, 0.7, 1.0, 0.0025, 3.0, 1e-3, 1.0 / 3.0, 2.0 ** -7]),
+                              gen.log_uniform(1e-4, 1e3)))
+    return {"kind": draw(st.sampled_from(["sampling", "sampling", "dumping"])), "interval": interval,
+            "first_zero": draw(st.booleans()),
+            "steps": draw(st.one_of(st.integers(3, 300), st.integers(1000, 4000)))}
+
+
+def body_periodic(rec, kind, interval, first_zero, steps):
+    """The periodic handlers alone, asked for their candidate time `steps` times in a row (a long run in miniature: the
+    mediator asks once per sample).  Oracle: exact k*interval by Fractions, at most one rounding per step."""
+    if kind == "sampling":
+        from jellyfysh.event_handler.fixed_interval_sampling_event_handler import FixedIntervalSamplingEventHandler
+        handler = FixedIntervalSamplingEventHandler(sampling_interval=interval, output_handler="Out",
+                                                    first_event_time_zero=first_zero)
+        offset = 1 if first_zero else 0
+    else:
+        from jellyfysh.event_handler.fixed_interval_dumping_event_handler import FixedIntervalDumpingEventHandler
+        handler = FixedIntervalDumpingEventHandler(dumping_interval=interval, output_handler="Out")
+        offset = 0
+    args = {"kind": kind, "interval": interval, "first_zero": first_zero, "steps": steps}
+    exact_interval = Fraction(interval)
+    step_rounding = Fraction(math.ulp(1.0 + interval))        # one rounding of remainder + interval
+    previous = None
+    for call in range(1, steps + 1):
+        t = handler.send_event_time()
+        k = call - offset
+        got = Fraction(t.quotient) + Fraction(t.remainder)
+        if not (t.quotient == math.floor(t.quotient) and 0.0 <= t.remainder < 1.0):
+            rec.fail("periodic/not-normalised", "%s handler, interval %r: candidate time number %d is %r"
+                     % (kind, interval, call, t), args)
+            break
+        if abs(got - k * exact_interval) > (call + 1) * step_rounding:
+            rec.fail("periodic/time", "%s handler, interval %r, first_event_time_zero=%r: candidate time number %d is "
+                     "%r = %.17g, nominal %d * interval = %.17g" % (kind, interval, first_zero, call, t, float(got), k,
+                                                                   float(k * exact_interval)), args)
+            break
+        if previous is not None and not t > previous:
+            rec.fail("periodic/not-increasing", "%s handler, interval %r: candidate time number %d is %r after %r"
+                     % (kind, interval, call, t, previous), args)
+            break
+        previous = t
+    rec.case("%s/%s" % (kind, "long" if steps >= 1000 else "short"), (kind, interval, first_zero, steps),
+             steps >= 1000, args)
+
+
+CHECKS = [Check("periodic_handlers", lambda rec, c=None, **kw: body_periodic(rec, **(c if c is not None else kw)),
+                lambda: {"c": periodic_case()}, quick=150, thorough=1500, quick_shards=4, thorough_shards=16),
+          Check("history", body, lambda: {"c": config_case(sampling_focus=True, min_end=(2.0, 12.0),
                                                            max_events=(60000, 60000))},
-                quick=10, thorough=60, quick_shards=16, thorough_shards=16, shrink_quick=False)]
+                quick=10, thorough=60, quick_shards=16, thorough_shards=16, shrink_quick=False),
+          ]
